@@ -19,6 +19,9 @@ import threading
 from . import common as C
 
 
+SHARED_MODULES = {"main.py", "renderer.py", "parser_core.py", "parser_block.py", "parser_inline.py", "utils.py", "token.py"}
+
+
 class Budget(BaseException):
     pass
 
@@ -56,6 +59,9 @@ class Run:
         self.events = []          # global order (only one thread runs at a time)
         self.ruler_events = [0] * n   # events inside ruler.py per thread
         self.where = [[] for _ in range(n)]  # (count) -> in_ruler flag, for planning
+        # first event count of every distinct line of the modules whose objects are shared by all calls on an
+        # instance (the facade, the renderer, the three parsers, the options mapping): planning of line pre-emptions
+        self.shared_lines = [dict() for _ in range(n)]
         self.rulers = {id(md.core.ruler): "core", id(md.block.ruler): "block",
                        id(md.inline.ruler): "inline", id(md.inline.ruler2): "inline2"}
 
@@ -72,6 +78,10 @@ class Run:
                 if inr:
                     run.ruler_events[t] += 1
                     run.where[t].append(c)
+                elif event == "line":
+                    base = os.path.basename(code.co_filename)
+                    if base in SHARED_MODULES:
+                        run.shared_lines[t].setdefault((base, frame.f_lineno), c)
                 if c > run.budget:
                     raise Budget()
                 if run.limit[t] is not None and c >= run.limit[t]:
